@@ -37,12 +37,16 @@ Number(bs) == NumBlocks(bs, 1)
 
 -----------------------------------------------------------------------------
 (* expressions *)
-Consts == { N(0), N(3), N(35), N(10), N(100), Lit(Fin(32)), Lit(Fin(224)), N(-5), Lit(NZero), Lit(PInf), Lit(NaN) }
-StrConsts == { S("hi"), S("a b!"), S("l1\nl2"), S(""), S("(x"), S("end\n"), S("\n"), S("a\\b"), S("t\tb") }
-NonConst == { Var("x"), Pro, Idx(Var("x"), N(0)), Call("f", <<N(1)>>), RollE(Var("x")), Lit(Bool(TRUE)), Lit(Null), Lit(Myst) }
+Consts == { N(0), N(3), N(35), N(10), N(100), Lit(Fin(32)), Lit(Fin(224)), N(-5), Lit(NZero), Lit(PInf), Lit(NaN),
+            Lit(Tiny(1, "0.00000000001")), Lit(Dec(1, "0.26")), Lit(Dec(1, "3.14159265358979")), Lit(Big(1, "123456789012345")) }
+StrConsts == { S("hi"), S("a b!"), S("l1\nl2"), S(""), S("(x"), S("end\n"), S("\n"), S("a\\b"), S("t\tb"), S("hey\r"), S("\r"), S(" lead and trail  ") }
+NonConst == { Var("x"), Pro, Idx(Var("x"), N(0)), Call("f", <<N(1)>>), RollE(Var("x")), Lit(Bool(TRUE)), Lit(Null), Lit(Myst),
+              \* a pop or an element of something that is itself a constant is still not a constant (it is a run-time error, or a character)
+              RollE(N(5)), Idx(N(5), N(1)), Idx(S("abc"), S("b")), RollE(S("abc")), Idx(S("abc"), N(1)), Idx(Var("x"), Var("y")) }
 PLits == { PLit(<<PW("abc"), PW("de")>>), PLit(<<PW("a"), PD, PW("ab"), PS("'s")>>) }
 Atoms == Consts \cup StrConsts \cup NonConst
-AtomsQ == { N(0), N(3), Lit(Fin(32)), N(-5), S("hi"), Var("x"), Pro, Call("f", <<N(1)>>), RollE(Var("x")), Lit(Bool(TRUE)), Lit(Null), Lit(Myst) }
+AtomsQ == { N(0), N(3), Lit(Fin(32)), N(-5), S("hi"), Var("x"), Pro, Call("f", <<N(1)>>), RollE(Var("x")), Lit(Bool(TRUE)), Lit(Null), Lit(Myst),
+            RollE(N(5)), Idx(N(5), N(1)) }
 Ops == { "plus", "minus", "times", "over", "lt", "and", "eq" }
 
 E1(A) == { Un(o, a) : o \in {"neg", "not"}, a \in A } \cup { Bin(o, a, <<b>>) : o \in Ops, a \in A, b \in A }
